@@ -22,12 +22,12 @@ type Obligation struct {
 	Cond, Goal Term
 	PreludeLen int
 	// filled by the solver stage
-	Status string // "unsat" (discharged), "sat", "unknown"
-	Solver string
-	TimeS  float64
-	Model  map[string]string
+	Status    string // "unsat" (discharged), "sat", "unknown"
+	Solver    string
+	TimeS     float64
+	Model     map[string]string
 	Candidate bool // model comes from the relaxed (quantifier-free) query
-	Output string
+	Output    string
 }
 
 type Epoch struct {
@@ -62,33 +62,33 @@ type EntrySym struct {
 }
 
 type Gen struct {
-	ctx       *Ctx
-	top       *ssa.Function
-	topC      *Contract
-	lines     []string
-	nsym      int
-	obls      []*Obligation
-	declared  map[string]bool
-	notes     map[string]bool
-	kindCount map[string]int
-	entrySyms []EntrySym
-	havocCallees map[string]bool
+	ctx           *Ctx
+	top           *ssa.Function
+	topC          *Contract
+	lines         []string
+	nsym          int
+	obls          []*Obligation
+	declared      map[string]bool
+	notes         map[string]bool
+	kindCount     map[string]int
+	entrySyms     []EntrySym
+	havocCallees  map[string]bool
 	usedContracts map[string]bool
-	usedTrusted map[string]bool
-	nepoch    int
-	entryW    Term
-	topMods   []ModEntry
-	mode      string // "", "threadlocal"
-	strLits   map[string]Term
-	unsupported []string
-	specErrs    []string
-	noName      int
-	usedPure    map[string]bool
-	declLine    map[string]int
-	lemmaKey    string
-	skipInvs    bool
-	muteObl     int
-	usedInvs    map[string]bool
+	usedTrusted   map[string]bool
+	nepoch        int
+	entryW        Term
+	topMods       []ModEntry
+	mode          string // "", "threadlocal"
+	strLits       map[string]Term
+	unsupported   []string
+	specErrs      []string
+	noName        int
+	usedPure      map[string]bool
+	declLine      map[string]int
+	lemmaKey      string
+	skipInvs      bool
+	muteObl       int
+	usedInvs      map[string]bool
 }
 
 func newGen(ctx *Ctx, fn *ssa.Function) *Gen {
